@@ -4,9 +4,9 @@ WIRE: header writer <-> header reader <-> spec; parity rule for the LongAtoms bi
 type/PROV rules on the atom cache (key width, position vs internal index); CAST on
 what the header writes; cache lifetime; the fragment-header consumer.
 """
-from ..core import callee_of, callee_names, is_call_to, unwrap, receiver_root, fold, dominating_edges
+from ..core import callee_of, callee_names, is_call_to, unwrap, receiver_root, fold, dominating_edges, value_path
 from ..ranges import canon, Ranges
-from ..families import describe, check_casts, check_panics
+from ..families import describe, check_casts, check_panics, operand_chain
 from ..etf import DEC, ENC, writer_paths, dispatch_table, OWNED
 from ..wire import signature, fmt_sig, _sccs
 
@@ -135,8 +135,9 @@ def run(ctx):
 
     # ---------------- clause 4: what the header writes is not truncated (CAST) -- shared with C01.3 -----------------
     ctx.rule('C14.4-cast', 'atom count and atom lengths written in the header are guarded', floor=3)
-    from .c01 import REVIEWED_CAST
+    from .c01 import REVIEWED_CAST, reviewed_premises
     check_casts(ctx, WB, 'C14.4-cast', include_float=False, reviewed=REVIEWED_CAST)
+    reviewed_premises(ctx, 'C14.4-cast')
 
     # ---------------- clause 5: cache lifetime ----------------------------------------------------------------------
     ctx.rule('C14.5-cache-lifetime', 'the cache handed to the header decoder is the connection\'s own field (kept across messages), not a fresh value', floor=2)
@@ -170,6 +171,38 @@ def run(ctx):
                 else:
                     ctx.bad('C14.5-cache-lifetime', 'receive_message->decode_complete_fragment', 'fragment decoding is given %s' % names, ctx.where(RC, bb),
                             key='PROV:%s:fragment-fresh-cache' % RECV)
+
+    # inside the decoder: the cache parameter itself is what the header parser updates
+    ctx.rule('C14.5-cache-threading', 'a decoder function that receives the persistent cache (&mut AtomCache) hands that very cache to whatever updates it; '
+             'if it works on a copy, every successful return is preceded by writing the copy back', floor=3)
+    for p in sorted(q for q in ctx.F.bodies if q.startswith(DEC) and ctx.F.bodies[q]['kind'] == 'Fn'):
+        DB = P.B(p)
+        params = [i for i in range(1, DB.b['argc'] + 1) if 'mut' in DB.local_ty(i) and 'AtomCache' in DB.local_ty(i)]
+        if not params:
+            continue
+        k = 0
+        for bb, t in DB.calls():
+            for i, ty in enumerate(t.get('aty') or []):
+                if not ('mut' in ty and 'AtomCache' in ty):
+                    continue
+                k += 1
+                inst = '%s->%s%s' % (p.rsplit('::', 1)[1], (callee_of(t)[0] or '?').rsplit('::', 1)[1], '' if k == 1 else '#%d' % k)
+                root = receiver_root(DB, t['args'][i])[0]
+                vp = value_path(DB, t['args'][i])
+                copied = any(isinstance(x, str) and any(x.endswith(y) for y in ('::clone', '::to_owned', '::default', '::new')) for x in vp)
+                if root is not None and root[0] == 'arg' and root[1] in params and not copied:
+                    ctx.ok('C14.5-cache-threading', inst, 'passes its own cache parameter', ctx.where(DB, bb))
+                    continue
+                # a copy: every Ok return reachable from here must be dominated by a store through the parameter
+                oks = [b3 for b3, j3, st3 in DB.stmts() if st3['k'] == '=' and st3['pl']['l'] == 0 and st3['rv']['k'] == 'agg' and st3['rv'].get('var') == 'Ok' and b3 in DB.reachable(bb)]
+                stores = [b3 for b3, j3, st3 in DB.stmts() if st3['k'] == '=' and st3['pl']['l'] in params and st3['pl'].get('p') == ['*']]
+                missing = [b3 for b3 in oks if not any(DB.block_dominates(s_, b3) for s_ in stores)]
+                if oks and not missing:
+                    ctx.ok('C14.5-cache-threading', inst, 'works on a copy that is written back before every successful return', ctx.where(DB, bb))
+                else:
+                    ctx.bad('C14.5-cache-threading', inst, '%s hands a copy (%s) to the cache-updating callee instead of its own cache parameter, and %d of %d successful returns are not preceded by writing it back: '
+                            'entries created or overwritten by this message are lost for the following ones' % (p.rsplit('::', 1)[1], ' <- '.join(str(x).rsplit('::', 1)[-1] for x in vp), len(missing), len(oks)),
+                            ctx.where(DB, missing[0] if missing else bb), key='PROV:%s:cache-copy-not-written-back' % p)
 
     # ---------------- clause 6: fragment-header consumer ---------------------------------------------------------------
     ctx.rule('C14.6-fragment-header-section', 'after a fragment header the atom-cache section has the same layout as in a distribution header (u8 n, n/2+1 flag bytes, n entries); treating n as a byte length is wrong', floor=1)
